@@ -419,6 +419,10 @@ class Ctx:
                         print(f"KNOWN-FINDING: property={self.prop} {f['id']}: {f['what']}", flush=True)
                     self.known_hits.append(f["id"])
                     return
+        if getattr(self, "shrunk", None) is not None and isinstance(replay, dict):
+            # found in the pass that runs with the code's size thresholds scaled down (harness/cli.py): a replay needs the same setting
+            replay = dict(replay, shrunk_size_constants={"value": self.shrunk, "constants": getattr(self, "shrunk_names", [])})
+            what = what + " [with the code's size thresholds scaled down]"
         self.violations.append({"what": what, "replay": replay, "kind": kind})
 
     def finish(self) -> int:
